@@ -204,7 +204,7 @@ def run_scenario(sc, chooser=None, seed=0, max_steps=60000):
     for vt in sched.vts:
         if vt.exc is not None and not isinstance(vt.exc, SinkFailure):
             viol.append("unexpected exception in %s: %r" % (vt.name, vt.exc))
-    return {"lines": lines, "outcome": outcome, "monitor": sorted(set(viol)), "choices": list(sched.choices), "steps": sched.steps,
+    return {"lines": lines, "outcome": outcome, "monitor": sorted(set(viol)), "choices": list(sched.choices), "cand_counts": list(sched.cand_counts), "steps": sched.steps,
             "switches": sched.context_switches, "stuck": [vt.name for vt in sched.stuck]}
 
 
